@@ -58,7 +58,7 @@ _PLAIN_BUILTINS = {"len", "bytes", "int", "str", "bool", "list", "tuple", "dict"
                    "bytearray", "abs", "iter", "next", "callable", "id", "hash", "vars", "dir", "map", "filter", "ord", "chr"}
 
 
-_SPEC_BUILTINS = {"HASH", "UUID5", "HEX", "ENC", "utf8", "TAG", "NAMESPACE_DNS", "UNHEX", "FILE", "TEXTFILE", "EXISTS", "HEXMAP", "HEX_PUT", "HEX_EMPTY", "HEX_MERGE", "HEX_TOBIN", "HEX_MIN", "HEX_MAX", "HEX_OVERLAP", "HEX_ISEMPTY", "HEX_FILE_OK"}
+_SPEC_BUILTINS = {"HASH", "UUID5", "HEX", "ENC", "utf8", "TAG", "NAMESPACE_DNS", "UNHEX", "FILE", "TEXTFILE", "EXISTS", "HEXMAP", "HEX_PUT", "HEX_EMPTY", "HEX_MERGE", "HEX_TOBIN", "HEX_MIN", "HEX_MAX", "HEX_OVERLAP", "HEX_ISEMPTY", "HEX_FILE_OK", "in_version_grammar"}
 
 
 def builtin_name(it, name):
@@ -713,8 +713,8 @@ def getitem(it, obj: V, key: V) -> V:
             e = open_dict_entry(it, obj, ck)
         if e is None:
             it.raise_(KeyError, repr(ck))
-        if e.present is True or it.branch(e.present):
-            return e.value
+        if e.present is True or it.pure or it.branch(e.present):
+            return e.value  # (clauses are total: the value of a possibly absent key is unspecified - guard it)
         it.raise_(KeyError, repr(ck))
     if isinstance(obj, (VList, VTuple)):
         if isinstance(key, VInt):
@@ -1233,3 +1233,4 @@ def symbolic_comprehension(it, n, env):
 
 # The remaining parts (call_builtin, library object models) live in stubs_lib to keep files readable.
 from .stubs_lib import call_builtin, lib_getattr, lib_getitem, lib_setitem  # noqa: E402,F401
+from . import restubs  # noqa: E402,F401  (registers the `re` handlers)
